@@ -95,10 +95,61 @@ def token_guarantee_sites(f):
     out = []
     for n in walk(f["body"]):
         if n.get("k") == "mcall" and callee(n) == P + "require_at_least_n_tokens":
-            v = peel(n["args"][2])
+            v = resolve(n["args"][2])
             if v.get("k") == "lit":
-                out.append((n, v["v"]))
+                out.append((n, _Const(v["v"])))
+            elif v.get("k") == "match":
+                # a count selected by the operator token: `match op { "slice" => 6, "uext" | "sext" => 5, _ => 4 }`
+                tbl, dflt, ok = {}, None, True
+                for arm in v["arms"]:
+                    val = peel(peel_block(arm["body"]))
+                    if val.get("k") != "lit" or not isinstance(val.get("v"), int) or "guard" in arm:
+                        ok = False
+                        break
+                    for alt in pat_alts(arm["pat"]):
+                        if alt.get("k") == "plit":
+                            tbl.setdefault(alt["v"], val["v"])
+                        elif alt.get("k") in ("pwild", "pbind") and dflt is None:
+                            dflt = val["v"]
+                        else:
+                            ok = False
+                if ok and dflt is not None:
+                    out.append((n, _PerOp(v["scrut"], tbl, dflt)))
     return out
+
+
+def _same_subject(a, b):
+    a, b = resolve(a), resolve(b)
+    ka, kb = c08.tok_index(a), c08.tok_index(b)
+    if ka is not None or kb is not None:
+        return ka == kb
+    return a.get("k") == "local" and b.get("k") == "local" and canon(a["id"]) == canon(b["id"])
+
+
+class _Const:
+    def __init__(self, v):
+        self.v = v
+
+    def at(self, site, ix):
+        return self.v
+
+
+class _PerOp:
+    """a guarantee whose size depends on the operator token: at a site inside an arm of a match on the same token, the smallest value over
+    the operators of that arm; elsewhere the smallest value of the table"""
+
+    def __init__(self, scrut, tbl, dflt):
+        self.scrut, self.tbl, self.dflt = scrut, tbl, dflt
+
+    def at(self, site, ix):
+        for a in ix.ancestors(site):
+            if a.get("k") == "match" and _same_subject(a["scrut"], self.scrut):
+                for arm in a["arms"]:
+                    if contains(arm["body"], site) or ("guard" in arm and contains(arm["guard"], site)):
+                        alts = pat_alts(arm["pat"])
+                        if all(x.get("k") == "plit" for x in alts):
+                            return min(self.tbl.get(x["v"], self.dflt) for x in alts)
+        return min(list(self.tbl.values()) + [self.dflt])
 
 
 def token_indices(ctx, reach, fns):
@@ -114,7 +165,7 @@ def token_indices(ctx, reach, fns):
                 passes_tokens = any(show(peel(a)) in ("tokens", "cont", "&cont", "cont.tokens", "&cont.tokens") or show(peel(a)).endswith("tokens") for a in n["args"])
                 if not passes_tokens:
                     continue
-                g_ = max([v for (r, v) in gs if ix.dominates(r, n) and dominates_with_try(r, ix)] + [b for (r, b) in base if r is None or ix.dominates(r, n)] + [0])
+                g_ = max([v.at(n, ix) for (r, v) in gs if ix.dominates(r, n) and dominates_with_try(r, ix)] + [b for (r, b) in base if r is None or ix.dominates(r, n)] + [0])
                 call_guar.setdefault(callee(n), []).append(g_)
     n_idx = 0
     for p in reach:
@@ -132,7 +183,7 @@ def token_indices(ctx, reach, fns):
                 continue
             n_idx += 1
             per[k] = per.get(k, 0) + 1
-            have = max([v for (r, v) in gs if dominates_with_try(r, ix) and (ix.dominates(r, n) or correlated_guarantee(r, n, ix))] + [b for (r, b) in base if r is None or ix.dominates(r, n)] + [inherited])
+            have = max([v.at(n, ix) for (r, v) in gs if dominates_with_try(r, ix) and (ix.dominates(r, n) or correlated_guarantee(r, n, ix))] + [b for (r, b) in base if r is None or ix.dominates(r, n)] + [inherited])
             ctx.inst("R18.2", "%s:tokens[%d]#%d" % (p.split("::")[-1], k, per[k]), have > k, n["sp"],
                      "%s reads token %d but at most %d tokens are guaranteed on this path: a line with too few tokens aborts the reader (index out of bounds) instead of reporting an error" % (p, k, have),
                      sample={"fn": p, "index": k, "guaranteed_tokens": have})
@@ -508,8 +559,14 @@ def stmt_checks(st, aid, defs, fns, is_int):
                         mentions = True
         if not mentions:
             return False
-        kindy = any(y.get("k") == "mcall" and y["name"] in ("is_bit_vector", "is_array", "is_bool", "get_type", "get_bv_type", "get_bit_vector_width") for y in walk(subj))
-        cmpy = any(y.get("k") == "binary" and y["op"] in ("<", "<=", ">", ">=", "==", "!=") for y in walk(subj))
+        expanded = list(walk(subj))
+        for x in list(expanded):
+            if x.get("k") == "local":
+                d = defs.get(x["id"])
+                if d and d[0] == "let" and "init" in d[1] and d[2].get("k") == "pbind" and not d[2].get("mut"):
+                    expanded += list(walk(d[1]["init"]))      # `let in_range = a <= b && b < w; if !in_range { reject }`
+        kindy = any(y.get("k") == "mcall" and y["name"] in ("is_bit_vector", "is_array", "is_bool", "get_type", "get_bv_type", "get_bit_vector_width") for y in expanded)
+        cmpy = any(y.get("k") == "binary" and y["op"] in ("<", "<=", ">", ">=", "==", "!=") for y in expanded)
         rejects = any(x.get("k") == "return" or (x.get("k") == "ctor" and callee(x).endswith("Result::Err")) or (x.get("k") == "mcall" and callee(x) == P + "add_error") for x in walk(s_))
         return (kindy or (is_int and cmpy)) and rejects
     if s_.get("k") in ("for", "while", "loop"):
